@@ -9,7 +9,7 @@ namespace Uquic.Proofs.Fields
 open Uquic.Model.H3.Fields Uquic.Model.H3.Writer Uquic.Gen.H3Fields
 open Uquic.Spec.H3Fields (isPseudoName lowerTchar fieldValueByte isDigitByte connectionSpecific allowedPseudo
   fieldSize sectionSize NameTokens ValueBytes NoConnectionSpecific TeTrailers PseudoKnown PseudoFirst PseudoUnique
-  ClSingle ClNumeric SizeOk WellFormedG WellFormed)
+  ClSingle ClNumeric SizeOk WellFormed)
 
 /-! ### strconv.FormatInt -/
 
@@ -129,6 +129,6 @@ theorem wf_of_parts (isReq : Bool) (lim : Int) (P R : List Field) (clv : List Na
       · rcases hR f hf with h | ⟨_, h⟩
         · exact absurd hfn h.2.2.2.2.2.2
         · exact h
-    rw [this]; exact ⟨Or.inl hclv.1, hclv.2⟩
+    rw [this]; exact ⟨hclv.1, hclv.2⟩
 
 end Uquic.Proofs.Fields
